@@ -6,8 +6,8 @@ import pktgen, scen, compare as CMP
 
 class Prop(PropBase):
     pid = 'C10'
-    kernels = ['fx_packetGet', 'fx_packetPut']
-    vo_targets = ['Props/Properties_C10.vo', 'Proofs/QueueInv.vo', 'Proofs/QueueProgress.vo', 'Model/Queue.vo', 'Proofs/QueueCode.vo']
+    kernels = ['fx_packetGet', 'fx_packetPut', 'fx_sq_push', 'fx_sq_pop', 'fx_sq_popWait', 'fx_sq_clear']
+    vo_targets = ['Props/Properties_C10.vo', 'Proofs/QueueInv.vo', 'Proofs/QueueProgress.vo', 'Model/Queue.vo', 'Proofs/QueueCode.vo', 'Proofs/SyncQueueCode.vo']
     prop_files = ['Props/Properties_C10.v']
     harness_variants = ['asan', 'tsan', 'asan+epoll']
     defines = {'asan+epoll': ('ENABLE_EPOLL_RECEIVE',)}
